@@ -21,7 +21,8 @@ CLAIM = ('to_sax emits exactly one startDocument/endDocument pair around everyth
          'mapping before the first token and closes the same mappings after the last; per token type the '
          'event(s) emitted are the right ones with the same (namespace, local name) on start and end. Nesting '
          "therefore reduces to the balance of the walker's stream (C11). Text buffered across tokens, if any, "
-         'is delivered after the loop.')
+         'is delivered after the loop.'
+         " The attribute set handed to startElementNS is the token's, and the qualified name given for each adjusted foreign attribute is the one it had in the markup (start-tag arm evaluated).")
 NOT_DECIDED = "balance of the incoming stream (C11's traversal); equality of a tree rebuilt from the events."
 MODULES = ["treeadapters/sax.py", "constants.py"]
 REL = "treeadapters/sax.py"
